@@ -281,12 +281,10 @@ impl ClusterHandler for AdminCommHandler {
             // instead so it lingers just long enough for the in-flight
             // exchange to complete, then can't accept new ones.
             // `Failsafe::expire` does the actual `remove_pase` call.
+            // ... and the same holds for a CASE session of the fabric the
+            // rollback removes (any other session is not touched by `expire`).
             let sess = ctx.exchange().id().session(&mut state.sessions);
-            let expire_sess_id = matches!(
-                sess.get_session_mode(),
-                crate::transport::session::SessionMode::Pase { .. }
-            )
-            .then(|| sess.id());
+            let expire_sess_id = Some(sess.id());
 
             let removed_fabric = state.failsafe.expire(
                 &mut state.fabrics,
